@@ -242,7 +242,8 @@ def tactic(nhyps, second=False, spatial=False):
     s += "zeros; "
     s += ("first [ norm_goal; fin | ids; norm_goal; fin | dxpush; norm_goal; fin "
           "| ids; condsel; norm_goal; fin | ids; dxpush; norm_goal; fin | norm_goal; cpush; fin "
-          "| dxpush; norm_goal; cpush; fin ]")
+          "| dxpush; norm_goal; cpush; fin | ids; norm_goal; condsel; norm_goal; fin "
+          "| ids; dxpush; norm_goal; condsel; norm_goal; cpush; fin ]")
     return s
 
 
